@@ -34,6 +34,10 @@ DOCS = [
     '<!DOCTYPE r [<!ENTITY e "ent">]><r>a&amp;b<![CDATA[<c>]]>&#65;&e;<x xml:lang="en-US"><y xml:lang="fr">\u00e9\u20ac</y><z/></x><n>12</n><n> 3.5 </n><n>-0</n><n>abc</n><n>1e3</n><n>.5</n><n>-7</n></r>',
     # 3: depth and repeated names for positional predicates and reverse axes
     '<r><s><a i="1"/><a i="2"><a i="3"/></a><b/><a i="4"/></s><s><a i="5"/><b><a i="6"/></b></s><s/></r>',
+    # 4: comments and PIs around the document element, DOCTYPE between them, white-space-only text, references inside attribute values
+    '<?xml version="1.0"?><!--pre--><?p1 a?><!DOCTYPE r [<!ENTITY e "E"><!ATTLIST r d CDATA "dflt">]><!--mid--><r a="x&amp;y&#65;&e;"> <k/> <k> </k>\n<!--in--><?p2?></r><!--post--><?p3 z?>',
+    # 5: prefixes re-declared and un-declared at several depths; the same local name in three namespaces
+    '<a xmlns="u1" xmlns:p="u2"><p:a xmlns:p="urn:p"><a xmlns=""><p:a/><a xmlns="urn:q" p:z="1" z="2"/></a></p:a><p:a><q:a xmlns:q="urn:p"/></p:a></a>',
 ]
 
 AXES = ['ancestor', 'ancestor-or-self', 'attribute', 'child', 'descendant', 'descendant-or-self', 'following', 'following-sibling',
@@ -41,11 +45,15 @@ AXES = ['ancestor', 'ancestor-or-self', 'attribute', 'child', 'descendant', 'des
 TESTS = {0: ['*', 'node()', 'text()', 'comment()', 'processing-instruction()', "processing-instruction('pi')", 'a', 'b', 'x'],
          1: ['*', 'node()', 'a', 'p:a', 'p:*', 'q:d', 'p:x', 'x', 'b'],
          2: ['*', 'node()', 'text()', 'n', 'y'],
-         3: ['*', 'node()', 'a', 'b', 's', 'i']}
+         3: ['*', 'node()', 'a', 'b', 's', 'i'],
+         4: ['*', 'node()', 'text()', 'comment()', 'processing-instruction()', "processing-instruction('p2')", 'k', 'a', 'd'],
+         5: ['*', 'node()', 'a', 'p:a', 'q:a', 'p:*', 'q:*', 'p:z', 'z']}
 CONTEXTS = {0: ['/', '/r', '//a', '//b', '//c', '//@x', '//text()', '//comment()', '/r/e/a', '//processing-instruction()'],
             1: ['/', '/*', '//p:a', '//a', '//*', '//@*'],
             2: ['/', '/r', '//y', '//n', '//text()'],
-            3: ['/', '//s', '//a', '//b', '//a[@i=3]', '//a[@i=6]', '//@i']}
+            3: ['/', '//s', '//a', '//b', '//a[@i=3]', '//a[@i=6]', '//@i'],
+            4: ['/', '/r', '//k', '//comment()', '//processing-instruction()', '//text()', '//@*', '/comment()[1]', '/processing-instruction()[last()]'],
+            5: ['/', '/*', '//*', '//p:a', '//q:a', '//a', '//@*']}
 PREDS = ['', '[1]', '[2]', '[last()]', '[position()>1]', '[position()=last()-1]', '[@x]', '[not(@*)]', "[.='1']", '[a]', '[text()]', '[1][1]', '[2][1]', '[last()][1]',
          '[position() mod 2 = 1]', '[true()]', '[0]', '[1.5]', "['']", "['x']", '[count(*)]', '[.//a]', '[../a]', '[self::a or self::b]', '[string-length() > 1]']
 
@@ -65,14 +73,26 @@ def exprs_for(di):
             for t in TESTS[di]:
                 base = f'{ctx}/{ax}::{t}' if ctx != '/' else f'/{ax}::{t}'
                 preds = PREDS if (di in (0, 3)) else PREDS[:8]
+                if di == 4:
+                    preds = PREDS[:6] + ['[text()]', '[true()]', '[string-length() > 1]']
                 if ax == 'attribute':
                     # the relative order of the attributes of one element is implementation-dependent: no positional predicates
                     preds = [p for p in preds if p in NON_POSITIONAL]
                 for p in preds:
                     out.append(base + p)
-        if not (di == 1 and ctx in ('//a', '//*')):
+        if not (di == 1 and ctx in ('//a', '//*')) and not (di == 5 and ctx != '/*'):
             # (under xmlns="" both oracles count the un-declaration as a namespace node; XPath 1.0 5.4 says there is none)
             out.append(f'count({ctx}/namespace::*)' if ctx != '/' else 'count(/namespace::*)')
+    # two steps: every pair of axes from a few context paths
+    two = {0: ['//a', '//b', '//@x', '//text()'], 3: ['//a', '//@i', '//b'], 4: ['//k', '/comment()', '//@*'], 5: ['//p:a', '//@*']}.get(di, [])
+    for ctx in two:
+        for ax1 in AXES:
+            for ax2 in AXES:
+                for t1, t2 in (('*', '*'), ('node()', 'node()'), ('*', 'node()'), ('node()', '*')):
+                    out.append(f'{ctx}/{ax1}::{t1}/{ax2}::{t2}')
+                if ax2 != 'attribute':      # (no positional predicate on the attribute axis: the order is implementation-dependent)
+                    out.append(f'{ctx}/{ax1}::node()[1]/{ax2}::node()[1]')
+                    out.append(f'{ctx}/{ax1}::*[last()]/{ax2}::*[2]')
     return out
 
 
@@ -103,6 +123,18 @@ CURATED = {
         'normalize-space(//n[2])', 'normalize-space(/r)', "starts-with(/r, 'a&b<c>Aent')", "contains(/r, '&')", "substring-before(/r, '<')", "substring-after(/r, '>')", "string-length(substring-before(/r, 'ent'))", 'floor(//n[2])', 'ceiling(//n[2])',
         'round(//n[2])', 'round(//n[6])', 'round(-//n[6])', 'round(//n[7] div 2)', 'string(round(-//n[6]))', 'string(//n[7] div 0)', 'string(0 div //n[3])', 'boolean(//n[3])', 'boolean(string(//z))', 'boolean(number(//n[3]))', 'not(//z)', 'not(string(//z))',
         '//x//text()', '//x/*/text()', '//x/descendant::text()[1]', '//text()[. = "12"]', "//text()[contains(., 'ent')]", '//text()[string-length() = 2]', '/r/text()/following-sibling::*[1]', '/r/x/preceding-sibling::text()', 'name(/r/text()/following::*[1])'],
+    4: ['//@d/..', 'name(//@d/..)', 'count(//@d/ancestor::node())', '/node()', '/comment()', '/processing-instruction()', '/comment()[2]', '/node()[1]', '/node()[last()]', 'count(/node())', 'count(//node())', 'count(//comment())', 'count(//processing-instruction())', 'string(/)', 'string(/r)',
+        'string(/r/@a)', 'string-length(/r/@a)', 'string(/r/@d)', 'count(/r/@*)', '/r/@d', '//@*[. = "dflt"]', 'name(/processing-instruction()[1])', 'name(/processing-instruction()[last()])', 'string(/processing-instruction()[last()])',
+        'string(//processing-instruction()[2])', 'string(/comment()[1])', 'string(/comment()[last()])', '/r/preceding-sibling::node()', '/r/following-sibling::node()', '/r/preceding::node()', '/r/following::node()',
+        '/comment()[1]/following::node()', '/comment()[last()]/preceding::node()', '/comment()[1]/following-sibling::*', '//k/preceding::node()', '//k[2]/preceding-sibling::node()', '//k[1]/following-sibling::node()[1]',
+        'count(/r/text())', 'count(/r/node())', 'string-length(/r)', 'normalize-space(/r)', '//text()[normalize-space() = ""]', 'count(//text()[normalize-space() = ""])', '/r/k[2]/text()', 'string(/r/k[2])', 'boolean(/r/k[1]/text())',
+        '/r/node()[2]', '/r/node()[last()]', '/r/comment()/following-sibling::node()', 'count(/r/k[1]/following::node())', 'count(/r/k[1]/preceding::node())', '//comment()[. = "in"]/..', '/*/..', 'count(/*)', 'name(/*)',
+        "contains(/r/@a, '&')", "substring-after(/r/@a, '&')", "translate(/r/@a, 'xyAE', '1234')", "concat(/r/@a, '|', /r/@d)"],
+    5: ['//a', '//p:a', '//q:a', '//p:*', '//*', 'count(//*)', 'count(//p:a)', 'count(//q:a)', 'count(//a)', '/*/p:a', '/*/p:a/*', '/*/*/*', '//a/p:a', '//a/a', '//*[local-name() = "a"]', 'count(//*[local-name() = "a"])',
+        '//*[namespace-uri() = "u1"]', '//*[namespace-uri() = "u2"]', '//*[namespace-uri() = "urn:p"]', '//*[namespace-uri() = "urn:q"]', '//*[namespace-uri() = ""]', 'namespace-uri(/*)', 'namespace-uri(/*/*[1])', 'namespace-uri(/*/*[2])',
+        'namespace-uri(//a[1])', 'name(/*/*[1])', 'name(/*/*[2])', 'name(/*/*[2]/*)', 'local-name(/*/*[2]/*)', 'namespace-uri(/*/*[2]/*)', '//@p:z', '//@z', '//@*', 'namespace-uri(//@p:z)', 'namespace-uri(//@z)', 'name(//@p:z)', 'name(//@z)',
+        '//*[@p:z]', '//*[@z]', '//q:a/@q:z', '//q:a/@*', '//*[name() = "p:a"]', 'count(//*[name() = "p:a"])', '//*[name() = "q:a"]', '//*[name() = "a"]', '//p:a/p:a', '//p:a//p:a', '//p:a/ancestor::p:a', '//p:a/descendant::*',
+        '//q:a/ancestor::*', '//q:a/preceding::*', '//q:a/following::*', '//p:a[p:a]', '//p:a[not(*)]', '//*[self::p:a]', '//*[self::q:a or self::a]', 'count(//*[self::p:a or self::q:a])'],
     3: ['//a[1]', '//a[2]', '//a[last()]', '(//a)[1]', '(//a)[2]', '(//a)[last()]', '(//a)[last()-1]', '//s/a[2]', '//s[2]/a', '//s[a][2]', '//s[2][a]', '//s[last()]', '//s[not(*)]', '//a[a]', '//a/a', '//a//a', '//s//a[1]', '//s/descendant::a[1]',
         '//s/descendant::a[last()]', '//a[@i=3]/ancestor::*', '//a[@i=3]/ancestor::*[1]', '//a[@i=3]/ancestor::*[2]', '//a[@i=3]/ancestor::*[last()]', '//a[@i=3]/ancestor-or-self::a', '//a[@i=3]/ancestor-or-self::a[1]', '//a[@i=3]/ancestor-or-self::a[2]',
         '//a[@i=6]/preceding::a', '//a[@i=6]/preceding::a[1]', '//a[@i=6]/preceding::a[2]', '//a[@i=6]/preceding::a[last()]', '(//a[@i=6]/preceding::a)[1]', '(//a[@i=6]/preceding::a)[last()]', '//a[@i=4]/preceding-sibling::*', '//a[@i=4]/preceding-sibling::*[1]',
@@ -205,7 +237,7 @@ def run_libxml2(doc_text, exprs):
         _fields_ = [('next', C.c_void_p), ('type', C.c_int), ('href', C.c_char_p), ('prefix', C.c_char_p)]
 
     raw = doc_text.encode('utf-8')
-    doc = lib.xmlReadMemory(raw, len(raw), b'd.xml', None, 2 | 16384 | 32 | 64)     # NOENT | NOCDATA | NOERROR | NOWARNING
+    doc = lib.xmlReadMemory(raw, len(raw), b'd.xml', None, 2 | 8 | 16384 | 32 | 64)     # NOENT | DTDATTR (defaulted attributes) | NOCDATA | NOERROR | NOWARNING
     assert doc
     ctx = lib.xmlXPathNewContext(doc)
     lib.xmlXPathRegisterNs(ctx, b'p', b'urn:p')
